@@ -582,6 +582,8 @@ pub enum OpKind {
   /// returns. `abort_at = Some(j)`: the chunk callback unwinds at chunk j.
   Stream { columns: bool, abort_at: Option<u32> },
   Hash,
+  /// `Source::update_hash` with the same fixed hasher
+  UpdateHash,
   /// `objects[obj] == objects[other]` through `dyn Source`
   Eq { other: usize },
   /// deep clone (`dyn_clone::clone_box`), then run `then` on the clone
@@ -616,6 +618,7 @@ impl OpKind {
         None => format!("stream({})", columns),
       },
       OpKind::Hash => "hash".into(),
+      OpKind::UpdateHash => "update_hash".into(),
       OpKind::Eq { .. } => "eq".into(),
       OpKind::CloneThen { then } => format!("clone>{}", then.label()),
       OpKind::EqClone => "eq_clone".into(),
@@ -632,7 +635,7 @@ impl OpKind {
       OpKind::ToWriter { .. } => "to_writer",
       OpKind::Map { .. } => "map",
       OpKind::Stream { .. } => "stream",
-      OpKind::Hash => "hash",
+      OpKind::Hash | OpKind::UpdateHash => "hash",
       OpKind::Eq { .. } => "eq",
       OpKind::CloneThen { .. } => "clone",
       OpKind::EqClone => "eq",
